@@ -255,7 +255,7 @@ class Crate:
         cr2 = n23(cross3(ab, bc))
         U2 = self.sc.U2
         lp = math.isqrt(n23(ab) * n23(bc)) / U2            # |ab||bc| in m^2
-        E = 64 * self.eps * lp + 16 * self.eps * 1e-5
+        E = 12 * self.eps * lp + 4 * self.eps * 1e-5
         q = Fraction(cr2, U2 * U2)
         lo = R_COLLINEAR - Fraction(E); hi = R_COLLINEAR + Fraction(E)
         if lo > 0 and q < lo * lo: return True
@@ -534,6 +534,20 @@ def combine(verdicts):
         if v[0] == 'skip': return v
     return verdicts[0]
 
+def cond_note(cs, c):
+    """one clause describing how the stored polygon is conditioned (for failure details)"""
+    sc = cs.sc
+    mn_cross = None; mn_edge = None
+    for pts in [c.outer] + c.holes:
+        n = len(pts)
+        for k in range(n):
+            ab = sub3(pts[k], pts[k - 1]); bc = sub3(pts[(k + 1) % n], pts[k])
+            cr = math.isqrt(n23(cross3(ab, bc))) / sc.U2
+            e = math.isqrt(n23(bc)) / sc.U
+            if mn_cross is None or cr < mn_cross: mn_cross = cr
+            if mn_edge is None or e < mn_edge: mn_edge = e
+    return 'outer %d vertices, %d holes, shortest edge %.3g m, smallest |ab x bc| at a vertex %.3g m2' % (len(c.outer), len(c.holes), mn_edge, mn_cross)
+
 # ---------------------------------------------------------------------------------------------------------------
 # C01 proper
 
@@ -569,6 +583,8 @@ def judge_candidate(cs, c, tris, vert_pts, refine):
         for h in c.H:
             if h.wind(p) != 0: return 'hole'
         return 'in'
+    R2s = sc.r2(Fraction(1, 10**4)); rs = math.isqrt(R2s) + 1
+    small = None
     sgn = c.sgn
     total = 0
     loc_cache = {}
@@ -595,12 +611,19 @@ def judge_candidate(cs, c, tris, vert_pts, refine):
                 w = locate(p); loc_cache[p] = w
                 if w == 'band': band_pts += 1
                 else: judged_pts += 1
-            if w == 'out':
-                return ('fail', 'triangle-outside-outline', 'the %s of valid triangle %d lies outside the outer outline (at %.9g, %.9g in the projection)'
-                        % (('vertex a', 'vertex b', 'vertex c', 'centroid', 'midpoint of ab', 'midpoint of bc', 'midpoint of ca')[pi], ti, p[0] / U, p[1] / U))
-            if w == 'hole':
-                return ('fail', 'triangle-in-hole', 'the %s of valid triangle %d lies inside a hole (at %.9g, %.9g in the projection)'
-                        % (('vertex a', 'vertex b', 'vertex c', 'centroid', 'midpoint of ab', 'midpoint of bc', 'midpoint of ca')[pi], ti, p[0] / U, p[1] / U))
+            if w == 'out' or w == 'hole':
+                names = ('vertex a', 'vertex b', 'vertex c', 'centroid', 'midpoint of ab', 'midpoint of bc', 'midpoint of ca')
+                gross = not any(o.near(p, R2s, rs) for o in outlines)
+                if w == 'out':
+                    v = ('fail', 'triangle-outside-outline' + ('' if gross else '-small'),
+                         'the %s of valid triangle %d lies outside the outer outline%s (at %.9g, %.9g in the projection)'
+                         % (names[pi], ti, '' if gross else ' by less than 1e-4 m', p[0] / U, p[1] / U))
+                else:
+                    v = ('fail', 'triangle-in-hole' + ('' if gross else '-small'),
+                         'the %s of valid triangle %d lies inside a hole%s (at %.9g, %.9g in the projection)'
+                         % (names[pi], ti, '' if gross else ' by less than 1e-4 m', p[0] / U, p[1] / U))
+                if gross: return v
+                if small is None: small = v
         # the same directed edge twice = two equally oriented triangles on the same side of it
         for e in ((a, b), (b, cc), (cc, a)):
             if e in dir_edges:
@@ -610,11 +633,20 @@ def judge_candidate(cs, c, tris, vert_pts, refine):
     net = cs.net_area2x2(c)
     total = abs(total)
     tol = 10**7 if not f32 else 10**3
+    area_fail = None
     if abs(total - net) * tol > net:
         rel = float(Fraction(total - net, net))
-        key = 'area-mismatch' if abs(rel) >= 1e-3 else 'area-mismatch-small'
-        return ('fail', key, 'triangle areas sum to %.12g m2 in the projection, the polygon has %.12g (relative difference %.3g)'
-                % (total / 2 / sc.U2, net / 2 / sc.U2, rel))
+        # a difference that the crate's collinearity tolerance explains (it drops vertices whose triangle with their
+        # neighbours is below 5e-6 m2) is reported under its own key
+        k3 = math.sqrt(float(Fraction(N2, N[cs.ax] ** 2)))            # projected area -> area in the plane
+        diff = abs(total - net) / 2 / sc.U2 * k3
+        mverts = len(cs.outer_in) + sum(len(h) + 2 for h in cs.holes_in)
+        key = 'area-mismatch-small' if diff <= 5e-6 * mverts else 'area-mismatch'
+        area_fail = ('fail', key, 'triangle areas sum to %.12g m2, the polygon has %.12g m2 (difference %.3g m2, relative %.3g)'
+                     % (total / 2 / sc.U2 * k3, net / 2 / sc.U2 * k3, diff, rel))
+        if key == 'area-mismatch': return area_fail
+    if small is not None: return small
+    if area_fail is not None: return area_fail
     # direct pairwise test: no two edges of the mesh cross properly
     if len(tris) <= 400:
         seen = set(); E = []
@@ -637,14 +669,16 @@ def judge_candidate(cs, c, tris, vert_pts, refine):
                 if segs_cross2(p, q, u, v):
                     # by a margin: every end point clearly off the other edge's line (collinear edges of a T-junction that
                     # rounding turned into a crossing, or a vertex rounded across an edge, are not overlaps)
-                    def off(a, b, x):
+                    def off(a, b, x, r2=None):
                         o = orient2(a, b, x)
-                        return o * o > R2 * ((b[0]-a[0])**2 + (b[1]-a[1])**2)
+                        return o * o > (R2 if r2 is None else r2) * ((b[0]-a[0])**2 + (b[1]-a[1])**2)
                     if off(p, q, u) and off(p, q, v) and off(u, v, p) and off(u, v, q):
+                        deep = off(p, q, u, R2s) and off(p, q, v, R2s) and off(u, v, p, R2s) and off(u, v, q, R2s)
                         den = (q[0]-p[0]) * (v[1]-u[1]) - (q[1]-p[1]) * (v[0]-u[0])
                         s = Fraction((u[0]-p[0]) * (v[1]-u[1]) - (u[1]-p[1]) * (v[0]-u[0]), den)
-                        return ('fail', 'triangles-overlap', 'two mesh edges cross at an interior point (at %.9g, %.9g in the projection)'
-                                % (float(p[0] + s * (q[0]-p[0])) / U, float(p[1] + s * (q[1]-p[1])) / U))
+                        return ('fail', 'triangles-overlap' if deep else 'triangles-overlap-small',
+                                'two mesh edges cross at an interior point%s (at %.9g, %.9g in the projection)'
+                                % ('' if deep else ', one end less than 1e-4 m beyond the other edge', float(p[0] + s * (q[0]-p[0])) / U, float(p[1] + s * (q[1]-p[1])) / U))
     if judged_pts == 0: return ('skip', 'band-all-points-on-outline')
     return ('ok', '')
 
